@@ -24,7 +24,7 @@ from .core import InfraError
 
 # property -> suites that exercise it (module names under harness/suites)
 PROPS = {
-    'C01': ['dispatch'],
+    'C01': ['dispatch', 'validators'],
     'C02': ['dispatch', 'asyncsched'],
     'C03': ['dispatch', 'validators'],
     'C04': ['bind'],
